@@ -502,8 +502,8 @@ PROPS["C17"] = dict(
           desc="StateHistory (struct and methods extracted verbatim): after any <= 3 increments lookup(k) is Some exactly for the recorded hashes, with their "
           "multiplicity", functions=["StateHistory::new", "StateHistory::increment", "StateHistory::lookup"], timeout=1500),
         K("c17", "c17_root_hash_is_recorded", desc="the head of analyze_iterative (everything before the iterative-deepening loop, extracted verbatim): "
-          "with a search memory handed over, the root position's hash -- computed by the memory's hasher -- is recorded in the memory's history "
-          "exactly once before the first iteration", functions=["Searcher::analyze_iterative (head, extracted)"], timeout=2400),
+          "with a search memory handed over, the root position's hash -- computed by the memory's hasher -- and nothing else is recorded in the memory's "
+          "history before the first iteration", functions=["Searcher::analyze_iterative (head, extracted)"], timeout=2400),
     ],
     assumptions=[],
     assumed_contracts=["ZobristHasher::hash (C08)", "StateHistory::{lookup,increment} are a map from hash to count: checked for histories of <= 3 recordings against a model of std's HashMap "
